@@ -216,6 +216,15 @@ def _names(args, kwargs):
     return names
 
 
+def pos_requires(*conds):
+    from vcgen.harness import gt
+
+    cl = []
+    for k, c in enumerate(conds):
+        cl += [gt(f"to_latent_positive{k}", c.to_latent), gt(f"to_observed_positive{k}", c.to_observed)]
+    return cl
+
+
 def _shape_family(tier, L):
     """(n_in, n_out, d): number of latent coefficients, observed rows per dimension, dimensions."""
     if L is DenseL:
@@ -256,7 +265,7 @@ def make_contracts(L):
 
     C["apply_flat"] = Contract(
         name=f"{pre}.apply_flat", module=L.module, qualname=f"{L.cond}.apply_flat",
-        ensures=apply_ens, instances=apply_inst,
+        ensures=apply_ens, instances=apply_inst, requires=lambda self, x: pos_requires(self),
         doc="N(A_eff x + b_eff, Q_eff)",
     )
 
@@ -278,7 +287,7 @@ def make_contracts(L):
 
     C["marginalise"] = Contract(
         name=f"{pre}.marginalise", module=L.module, qualname=f"{L.cond}.marginalise",
-        ensures=marg_ens, instances=marg_inst, callees=[CU.sum_of_sqrtm_factors],
+        ensures=marg_ens, instances=marg_inst, callees=[CU.sum_of_sqrtm_factors], requires=lambda self, rv: pos_requires(self),
         doc="N(A_eff m + b_eff, A_eff P A_eff^T + Q_eff)",
     )
 
@@ -288,6 +297,8 @@ def make_contracts(L):
         A2, b2, Q2 = law(L, other)
         Ar, br, Qr = law(L, res)
         return [
+            define("to_latent", res.to_latent, other.to_latent),
+            define("to_observed", res.to_observed, self.to_observed),
             eq("linop", Ar, L.mm(A1, A2)),
             eq("offset", br, L.mv(A1, b2) + b1),
             eq("cov", Qr, L.mm(L.mm(A1, Q2), L.T(A1)) + Q1),
@@ -307,7 +318,7 @@ def make_contracts(L):
 
     C["merge"] = Contract(
         name=f"{pre}.merge", module=L.module, qualname=f"{L.cond}.merge",
-        ensures=merge_ens, instances=merge_inst, callees=[CU.sum_of_sqrtm_factors],
+        ensures=merge_ens, instances=merge_inst, callees=[CU.sum_of_sqrtm_factors], requires=lambda self, other: pos_requires(self, other),
         doc="law(self.merge(other)) = law(self) o law(other)",
     )
 
@@ -320,6 +331,8 @@ def make_contracts(L):
         G, xi, Xi = law(L, bwd)
         m_obs = L.mv(A, m) + b
         return [
+            define("backward_to_latent", bwd.to_latent, 1.0 / self.to_observed),
+            define("backward_to_observed", bwd.to_observed, 1.0 / self.to_latent),
             eq("observed_mean", observed.mean_flat, m_obs),
             eq("observed_cov", cov(L, observed), S),
             eq("gain_equation", L.mm(G, S), L.mm(P, L.T(A))),
@@ -339,7 +352,7 @@ def make_contracts(L):
 
     C["revert"] = Contract(
         name=f"{pre}.revert", module=L.module, qualname=f"{L.cond}.revert",
-        ensures=revert_ens, instances=revert_inst, callees=[CU.revert_conditional],
+        ensures=revert_ens, instances=revert_inst, callees=[CU.revert_conditional], requires=lambda self, rv, *, solve_triu: pos_requires(self),
         inherits=("revert_conditional#",),
         doc="observed = marginal of y; backward conditional (G,xi,Xi): G S = P A^T, xi = m - G(A m + b), Xi = P - G S G^T (all in effective coordinates)",
     )
@@ -365,7 +378,7 @@ def make_contracts(L):
 
     C["preconditioner_apply"] = Contract(
         name=f"{pre}.preconditioner_apply", module=L.module, qualname=f"{L.cond}.preconditioner_apply",
-        ensures=precon_ens, instances=precon_inst,
+        ensures=precon_ens, instances=precon_inst, requires=lambda self: pos_requires(self),
         doc="unit scalings and the same law",
     )
     return C
